@@ -144,6 +144,10 @@ func (b *bgen) bschema(from string, depth int, refP float64) M {
 		if b.p(0.15) {
 			s["enum"] = []any{"a", "b"}
 		}
+		if s["type"] == "string" && b.p(0.2) {
+			s["pattern"] = b.pick([]string{"^[a-z]+$", "x/y"})
+			b.hit("schema:pattern")
+		}
 	case "emptyobj":
 		s["type"] = "object"
 	case "object":
@@ -249,8 +253,8 @@ func genBundle(g *Gen, o BundleOpts) *Bundle {
 	if nAux == 0 && o.MaxAux > 0 && strings.HasPrefix(o.Scenario, "collide-") && o.Scenario != "collide-nested" {
 		nAux = 1 // these shapes need an auxiliary document to import from
 	}
-	if o.Scenario == "relative-path-two-bases" {
-		nAux = 0 // the scenario brings its own three auxiliary documents
+	if o.Scenario == "relative-path-two-bases" || o.Scenario == "root-named-aux" || o.Scenario == "two-spellings" {
+		nAux = 0 // the scenario brings its own auxiliary documents
 	}
 	if nAux == 0 && o.MaxAux > 0 && (o.Scenario == "empty-mangled-names" || o.Scenario == "generated-name-equals-imported" || o.Scenario == "collide-sibling-refs") {
 		nAux = 1
@@ -1036,6 +1040,19 @@ func (b *bgen) injectScenario(name string, rootDefs, paths M, aux map[string]M, 
 			op["operationId"] = fmt.Sprintf("scenarioOdd%d", b.scnOps)
 		}
 		paths["/scn/odd"] = M{g.pick(allMethods): op}
+		if b.anonOK && g.p(0.6) {
+			// … and an anonymous pointer held by a response under such a code (also 0 and 600: any integer is a status code for
+			// the loader), into a definition that nothing else refers to
+			oc := g.pick([]string{"299", "499", "0", "600"})
+			tgt := g.pick([]string{"simple", "complex"})
+			rootDefs["oddOwner"] = M{"type": "object", "properties": M{
+				"simple":  M{"type": "string"},
+				"complex": M{"type": "object", "properties": M{"c": M{"type": "integer"}}}}}
+			b.scnOps++
+			paths["/scn/odd-pointer"] = M{"get": M{"operationId": fmt.Sprintf("scenarioOddPtr%d", b.scnOps),
+				"responses": M{oc: M{"description": "odd pointer", "schema": M{"$ref": "#/definitions/oddOwner/properties/" + tgt}}}}}
+			g.hit("scenario:odd-status-pointer")
+		}
 		g.hit("scenario:odd-status")
 	case "ref-siblings":
 		// a $ref with schema-bearing siblings (kept by the loader): the only $ref to a definition sits under such a sibling
@@ -1207,6 +1224,31 @@ func (b *bgen) injectScenario(name string, rootDefs, paths M, aux map[string]M, 
 			paths["/scn/sib-roots"] = M{"get": resp(M{"$ref": "#/definitions/sibX"}), "put": resp(M{"$ref": "#/definitions/sibY"})}
 		}
 		g.hit("scenario:collide-sibling-refs")
+	case "root-named-aux":
+		// an auxiliary document that has the file name of the root document, in a nested directory, with a $ref-free
+		// definition that collides by name with a root definition; reached from a definition on a cycle of another
+		// auxiliary document (so that the $ref survives Expand)
+		rn := b.rootDefs[g.n(len(b.rootDefs))]
+		frag := "#/definitions/" + urlFragEscape(jsonPtrEscape(rn))
+		aux["sub/deep/root.json"] = M{"definitions": M{rn: M{"type": "object", "properties": M{"fromNestedRoot": M{"type": "string"}}}}}
+		aux["sub/loop.json"] = M{"definitions": M{"loopR": M{"type": "object", "properties": M{
+			"again": M{"$ref": "#/definitions/loopR"}, "leaf": M{"$ref": "deep/root.json" + frag}}}}}
+		paths["/scn/root-named"] = M{"get": resp(M{"$ref": "sub/loop.json#/definitions/loopR"}), "put": resp(M{"$ref": "#/definitions/" + jsonPtrEscape(rn)})}
+		g.hit("scenario:root-named-aux")
+	case "two-spellings":
+		// the same auxiliary definition is referred to under two spellings of its relative path; another document defines a
+		// definition of the same name ($ref-free, both), whose path sorts between the two spellings
+		aux["parts/m.json"] = M{"definitions": M{"thing": M{"type": "object", "properties": M{"fromM": M{"type": "string"}}}}}
+		aux["parts/k.json"] = M{"definitions": M{"thing": M{"type": "object", "properties": M{"fromK": M{"type": "integer"}}}}}
+		paths["/scn/spell"] = M{
+			"get": resp(M{"$ref": "./parts/m.json#/definitions/thing"}),
+			"put": resp(M{"$ref": "parts/m.json#/definitions/thing"}),
+			"post": resp(M{"$ref": "parts/k.json#/definitions/thing"})}
+		if g.p(0.5) {
+			rootDefs["spellHolder"] = M{"type": "object", "properties": M{"a": M{"$ref": "parts/../parts/m.json#/definitions/thing"}}}
+			paths["/scn/spell2"] = M{"get": resp(M{"$ref": "#/definitions/spellHolder"})}
+		}
+		g.hit("scenario:two-spellings")
 	case "unused-chain":
 		// definitions that become unused only after another one is removed, through names that need escaping
 		if g.p(0.5) {
